@@ -206,7 +206,7 @@ impl<T> Matrix<T> {
      */
     #[track_caller]
     pub fn from_flat_row_major(size: (Row, Column), values: Vec<T>) -> Matrix<T> {
-        assert!(size.0 * size.1 == values.len(),
+        assert!(size.0.checked_mul(size.1) == Some(values.len()),
             "Inconsistent size, attempted to construct a {}x{} matrix but provided with {} elements.",
             size.0, size.1, values.len());
         assert!(!values.is_empty(), "No values provided");
